@@ -335,18 +335,35 @@ def fg_index_contract():
 
 # ------------------------------------------------------------------------------------------
 # fg_id_numpy, stage 2 (the assignment loop with its nested loop over the children lists), under the proved
-# postcondition of stage 1: SAFETY and RANGE only -- no KeyError / IndexError on any path for any number of rows,
-# every person receives an id, ids lie in [0, number of opened units). The partition itself (who shares an id)
-# is NOT part of this contract; it stays with the bounded-exhaustive run.
+# postcondition of stage 1: SAFETY, RANGE and NESTING -- no KeyError / IndexError on any path for any number of rows,
+# every person receives an id, ids lie in [0, number of opened units), and two persons with the same id live in
+# the same household (the "family unit within household" clause of C12; needs VALID: partners share hh_id).
+# The rest of the partition (who shares an id) is NOT part of this contract; it stays with the bounded-exhaustive run.
 # ------------------------------------------------------------------------------------------
 def fg_assign_contract():
     base = fg_index_contract()
+    y = z3.Int("y!")
+
+    def pre(inp, gh):
+        N, p, hh, ptr, rowof = inp["N"], inp["p_id"].arr, inp["hh_id"].arr, inp["p_id_einstandspartner"].arr, gh["rowof"]
+        return base["pre"](inp, gh) + [
+            ("VALID: a partner pointer is -1 or an existing person of the same household",
+             z3.ForAll([i], z3.Implies(z3.And(0 <= i, i < N, ptr[i] >= 0), z3.And(0 <= rowof(ptr[i]), rowof(ptr[i]) < N, p[rowof(ptr[i])] == ptr[i], hh[rowof(ptr[i])] == hh[i])))),
+        ]
 
     def carry(inp, gh):
         ix = SDict(A("p_id_to_index!c", Bool), A("p_id_to_index!cv"))
         ch = SDictList(A("p_id_to_p_ids_children!c", Bool), z3.Array("p_id_to_p_ids_children!ce", Int, z3.ArraySort(Int, Int)), A("p_id_to_p_ids_children!cl"))
         st = {"p_id_to_index": ix, "p_id_to_p_ids_children": ch}
         return st, [f for _, f in base["post"](inp, gh, st)]
+
+    def nest(inp, gh, fg):
+        hh, rowof = inp["hh_id"].arr, gh["rowof"]
+        return z3.ForAll([x, y], z3.Implies(z3.And(fg.dom[x], fg.dom[y], fg.val[x] == fg.val[y]), hh[rowof(x)] == hh[rowof(y)]))
+
+    def exist(inp, gh, fg):
+        N, p, rowof = inp["N"], inp["p_id"].arr, gh["rowof"]
+        return z3.ForAll([x], z3.Implies(fg.dom[x], z3.And(0 <= rowof(x), rowof(x) < N, p[rowof(x)] == x)))
 
     def inv(inp, gh, st, k):
         N, p = inp["N"], inp["p_id"].arr
@@ -355,25 +372,34 @@ def fg_assign_contract():
             ("B0 bounds", z3.And(0 <= k, k <= N, nxt >= 0)),
             ("B1 every processed person has an id", z3.ForAll([i], z3.Implies(z3.And(0 <= i, i < k), fg.dom[p[i]]))),
             ("B2 assigned ids lie below the counter", z3.ForAll([x], z3.Implies(fg.dom[x], z3.And(0 <= fg.val[x], fg.val[x] < nxt)))),
+            ("B3 keys are existing persons", exist(inp, gh, fg)),
+            ("B4 persons with the same id live in the same household", nest(inp, gh, fg)),
         ]
 
     def inner_inv(inp, gh, st_entry, st, t, lst):
         fg0, fg, nxt = st_entry["p_id_to_fg_id"], st["p_id_to_fg_id"], st["next_fg_id"]
+        hh, rowof = inp["hh_id"].arr, gh["rowof"]
+        cur = st_entry["current_hh_id"]  # the opener's household as the code holds it
         return [
             ("C0 position", z3.And(0 <= t, t <= lst.len)),
             ("C1 no id is removed", z3.ForAll([x], z3.Implies(fg0.dom[x], fg.dom[x]))),
             ("C2 assigned ids lie at or below the counter", z3.ForAll([x], z3.Implies(fg.dom[x], z3.And(0 <= fg.val[x], fg.val[x] <= nxt)))),
+            ("C3 keys are existing persons", exist(inp, gh, fg)),
+            ("C4 persons with the same id live in the same household", nest(inp, gh, fg)),
+            ("C5 members of the unit being opened live in the opener's household", z3.ForAll([x], z3.Implies(z3.And(fg.dom[x], fg.val[x] == nxt), hh[rowof(x)] == cur))),
         ]
 
     def post(inp, gh, st):
-        N = inp["N"]
+        N, hh = inp["N"], inp["hh_id"].arr
         Rr, nxt = st["__return__"], st["next_fg_id"]
         return [
             ("R0 one id per row", Rr.len == N),
             ("R1 ids lie in [0, number of opened units)", z3.ForAll([i], z3.Implies(z3.And(0 <= i, i < N), z3.And(0 <= Rr.arr[i], Rr.arr[i] < nxt)))),
+            ("R2 nesting: two rows with the same Familiengemeinschaft id have the same hh_id (family unit within household)",
+             z3.ForAll([i, j], z3.Implies(z3.And(0 <= i, i < N, 0 <= j, j < N, Rr.arr[i] == Rr.arr[j]), hh[i] == hh[j]))),
         ]
 
-    return {"function": "fg_id_numpy", "n_loops": 2, "loop_no": 1, "inputs": base["inputs"], "pre": base["pre"], "carry": carry, "inv": inv, "inner_inv": inner_inv, "post": post}
+    return {"function": "fg_id_numpy", "n_loops": 2, "loop_no": 1, "inputs": base["inputs"], "pre": pre, "carry": carry, "inv": inv, "inner_inv": inner_inv, "post": post}
 
 
 KERNELS = {
